@@ -45,7 +45,8 @@ impl Acc {
         *self.counters.entry(k.to_string()).or_insert(0) += 1;
     }
     pub fn add(&mut self, k: &str, n: u64) {
-        *self.counters.entry(k.to_string()).or_insert(0) += n;
+        let e = self.counters.entry(k.to_string()).or_insert(0);
+        *e = e.wrapping_add(n);
     }
     pub fn max(&mut self, k: &str, n: u64) {
         let e = self.counters.entry(k.to_string()).or_insert(0);
@@ -82,7 +83,8 @@ impl Acc {
                 let e = self.counters.entry(k).or_insert(0);
                 *e = (*e).max(v);
             } else {
-                *self.counters.entry(k).or_insert(0) += v;
+                let e = self.counters.entry(k).or_insert(0);
+                *e = e.wrapping_add(v);
             }
         }
         self.violations.extend(o.violations);
@@ -194,8 +196,15 @@ pub fn sweep(
                                 let idx = opts.offset + k * stride;
                                 slots[t].1.store(t0.elapsed().as_millis() as u64, Ordering::Relaxed);
                                 slots[t].0.store(idx, Ordering::Relaxed);
-                                let case = fam.get(idx);
-                                body(idx, &case, &mut acc);
+                                let r = std::panic::catch_unwind(std::panic::AssertUnwindSafe(|| {
+                                    let case = fam.get(idx);
+                                    body(idx, &case, &mut acc);
+                                }));
+                                if r.is_err() {
+                                    // a panic outside the guarded solver call is a bug of the harness, never a verdict
+                                    eprintln!("MACHINERY ERROR: harness panicked at family {} index {idx}", opts.fam_no);
+                                    std::process::exit(2);
+                                }
                             }
                             slots[t].0.store(u64::MAX, Ordering::Relaxed);
                         }
